@@ -795,7 +795,7 @@ func collectionOf(vm *VM, agg func([]Term, *Env) Term, template, goal, instances
 }
 
 func variant(t1, t2 Term, env *Env) bool {
-	s := map[Variable]Variable{}
+	s, r := map[Variable]Variable{}, map[Variable]Variable{} // a renaming and its inverse
 	rest := [][2]Term{
 		{t1, t2},
 	}
@@ -812,7 +812,10 @@ func variant(t1, t2 Term, env *Env) bool {
 						return false
 					}
 				} else {
-					s[x] = y
+					if _, ok := r[y]; ok { // y is already the image of another variable.
+						return false
+					}
+					s[x], r[y] = y, x
 				}
 			default:
 				return false
